@@ -5,7 +5,7 @@ import sys
 
 from .builtins import builtin_commands
 from .containers import CaseInsensitiveDict
-from .deferred import Promise, wait, BaseDeferred, Deferred, SizedDeferred, DeferredCycle
+from .deferred import Promise, wait, BaseDeferred, Deferred, SizedDeferred, DeferredCycle, try_compute
 from .devices import open_device
 from .formats import file_formats, ImageTooLarge
 from .metacommand_impl import get_as_int, describe_int
@@ -219,6 +219,9 @@ class Compiler:
             try:
                 return get_as_int(state, "link address", state["insn"], address, bitness=16, unsigned=False)
             except DeferredCycle:
+                if try_compute.depth > 0:
+                    # Only met on the way of an early attempt at something else
+                    raise
                 try:
                     equation = repr(address.resolve(state))
                 except DeferredCycle:
